@@ -355,7 +355,7 @@ def rule_lean(form_line):
     return "{ " + ", ".join(fields) + ", ops := [" + ", ".join(ops) + "] }"
 
 
-VEX_REG_CLASSES = {"rvm": (0x72, 0x75, 0x73, 0x76), "rm": (0x68, 0x6B), "rvmi": (0x7A, 0x7C, 0x7B, 0x7D), "rmi": (0x6F, 0x71),
+VEX_REG_CLASSES = {"rvm": (0x72, 0x75, 0x73, 0x76), "rm": (0x68, 0x6B, 0x83, 0x84), "rvmi": (0x7A, 0x7C, 0x7B, 0x7D), "rmi": (0x6F, 0x71),
                    # legacy space: ExtRm, ExtRm_P, X86Rm, X86Rm_NoSize ([reg, rm]); X86Mr, X86Mr_NoSize ([rm, reg]); ExtRmi, ExtRmi_P ([reg, rm, imm8])
                    "lrm": (0x4A, 0x4D, 0x14, 0x16, 0x21, 0x56, 0x2C), "lmr": (0x17, 0x18, 0x56, 0x2C), "lrmi": (0x52, 0x53), "lop": (0x01,),
                    # X86Arith, X86Test, register-register: the class emits the [rm, reg] form; 8-bit operands in both kinds (gpb, gpbhi)
@@ -371,7 +371,7 @@ VEX_REG_CLASSES = {"rvm": (0x72, 0x75, 0x73, 0x76), "rm": (0x68, 0x6B), "rvmi": 
                    # X86Mov between general-purpose registers / memory: `mov r/m, reg` (88 / 89) and `mov reg, r/m` (8A / 8B)
                    "lmov": (0x2C,), "lmovrm": (0x2C,),
                    # VexMr_Lx, VexMri / VexMri_Lx: r/m operand first
-                   "mr": (0x62,), "mri": (0x64, 0x65),
+                   "mr": (0x62, 0x83, 0x84), "mri": (0x64, 0x65),
                    # X86Lea: `lea reg, mem` (the memory operand has no register alternative: only the register kind is listed)
                    "llea": (0x2B,),
                    # X86Jcc / X86Jmp / X86Call to a bound label: rel8 and rel32 forms
